@@ -1,6 +1,9 @@
 import Proofs.ParseTsig
+import Proofs.ParsePad
 /-! A truncated rendering parses: the kept prefix of a well-formed message is a well-formed message. -/
 namespace Model
+
+variable {Rs : RelSpec}
 
 theorem rrCount_take_le (l : List RRset) (k : Nat) : rrCount (l.take k) ≤ rrCount l := by
   induction l generalizing k with
@@ -19,7 +22,7 @@ theorem isUpdate_or_tc (f : Nat) : isUpdate (f ||| ConstsC03.tcFlag) = isUpdate 
   rw [this, Nat.and_or_distrib_right]
   simp
 
-theorem MsgOk.cut {m : Message} (h : MsgOk m) (k : Nat) (tc : Bool) : MsgOk (m.cut k tc) := by
+theorem MsgOk.cut {m : Message} (h : MsgOk Rs m) (k : Nat) (tc : Bool) : MsgOk Rs (m.cut k tc) := by
   obtain ⟨c1, c2, c3, c4⟩ := h.counts
   have htc : ConstsC03.tcFlag < 2 ^ 16 := by decide
   refine ⟨h.origin, h.id, ?_, ?_, h.noOpt, h.noTsig, ?_, ?_, ?_, ?_, ?_, ?_, ?_, ?_⟩
@@ -45,7 +48,7 @@ theorem MsgOk.cut {m : Message} (h : MsgOk m) (k : Nat) (tc : Bool) : MsgOk (m.c
     · have := rrCount_take_le m.au (k - m.q.length - m.an.length); omega
     · have := rrCount_take_le m.ad (k - m.q.length - m.an.length - m.au.length); omega
 
-theorem MsgOkE.cut {m : Message} (h : MsgOkE m) (k : Nat) (tc : Bool) : MsgOkE (m.cut k tc) := by
+theorem MsgOkE.cut {m : Message} (h : MsgOkE Rs m) (k : Nat) (tc : Bool) : MsgOkE Rs (m.cut k tc) := by
   obtain ⟨c1, c2, c3, c4⟩ := h.counts
   have htc : ConstsC03.tcFlag < 2 ^ 16 := by decide
   refine ⟨h.origin, h.id, ?_, ?_, h.opt, h.pad, h.noTsig, ?_, ?_, ?_, ?_, ?_, ?_, ?_, ?_⟩
@@ -71,7 +74,7 @@ theorem MsgOkE.cut {m : Message} (h : MsgOkE m) (k : Nat) (tc : Bool) : MsgOkE (
     · have := rrCount_take_le m.au (k - m.q.length - m.an.length); omega
     · have := rrCount_take_le m.ad (k - m.q.length - m.an.length - m.au.length); omega
 
-theorem MsgOkT.cut {m : Message} (h : MsgOkT m) (k : Nat) (tc : Bool) : MsgOkT (m.cut k tc) := by
+theorem MsgOkT.cut {m : Message} (h : MsgOkT Rs m) (k : Nat) (tc : Bool) : MsgOkT Rs (m.cut k tc) := by
   obtain ⟨c1, c2, c3, c4⟩ := h.counts
   have htc : ConstsC03.tcFlag < 2 ^ 16 := by decide
   refine ⟨h.origin, h.id, ?_, ?_, h.opt, h.pad, h.tsig, ?_, ?_, ?_, ?_, ?_, ?_, ?_, ?_⟩
@@ -96,5 +99,8 @@ theorem MsgOkT.cut {m : Message} (h : MsgOkT m) (k : Nat) (tc : Bool) : MsgOkT (
     · have := rrCount_take_le m.an (k - m.q.length); omega
     · have := rrCount_take_le m.au (k - m.q.length - m.an.length); omega
     · have := rrCount_take_le m.ad (k - m.q.length - m.an.length - m.au.length); omega
+
+theorem MsgOkP.cut {m : Message} (h : MsgOkP Rs m) (k : Nat) (tc : Bool) : MsgOkP Rs (m.cut k tc) :=
+  ⟨h.base.cut k tc, h.padOk⟩
 
 end Model
